@@ -31,7 +31,7 @@ def main(tier):
     n = 0
     for shp in shapes:
         sk = "nr=%d ntheta=%d nsc=%d DirBC=%s" % shp
-        regs, notes, S = eff_runs.run_shape(prog, *shp)
+        regs, notes, S = eff_runs.run_shape(prog, *shp, give_flags=((False, False),) if tier == "quick" else ((False, False), (True, False), (False, True)))
         for qn, f in getattr(S.dom, "visited", {}).items():
             if not qn.startswith(("std::", "__gnu")):
                 ck.analysed(f)
@@ -48,6 +48,16 @@ def main(tier):
                 if len(units) > 1 or None in units:
                     bad = (name, idx, group, len(units))
                     break
+            if bad is None:
+                # floating-point scalars accumulated under atomic / in a critical section by several units of work
+                byp = {}
+                for name, site, group, cur, is_int, prot in getattr(r, "protected_scalar_writes", []):
+                    if not is_int:
+                        byp.setdefault((name, group), set()).add(cur)
+                for (name, group), units in byp.items():
+                    if len(units) > 1 or None in units:
+                        bad = (name, "(scalar, updated under atomic/critical)", group, len(units))
+                        break
             dyn = getattr(r, "schedule", None)
             # R-C12-4: a scalar that one iteration of a worksharing loop reads after an EARLIER iteration wrote it: iterations are
             # handed to threads in chunks, so the value depends on the thread count and the schedule (running counters, "previous"
@@ -245,6 +255,18 @@ def main(tier):
             ck.violation("R-C12-3", nm.split("<")[0], ir.locstr(fns[0]), "%s: %s" % (nm, "; ".join(probs)))
         else:
             ck.ok("R-C12-3", nm, sample={"kernel": nm, "value": what})
+    # a floating-point scalar accumulated under atomic / in a critical section inside a kernel: race free, but the order of the
+    # additions is the schedule's at a fixed thread count (a reduction clause with a static schedule fixes it)
+    for r in dom.regions:
+        byp = {}
+        for name, site, group, cur, is_int, prot in getattr(r, "protected_scalar_writes", []):
+            if not is_int:
+                byp.setdefault((name, group), set()).add((cur, site))
+        for (name, group), ws in byp.items():
+            if len(set(u for u, _ in ws)) > 1:
+                ck.fail("R-C12-2", "%s:atomic-accumulation" % r.fn.split("(")[0].split("<")[0], sorted(x for _, x in ws)[0],
+                        "%s: the floating-point variable `%s` is updated under atomic/critical by %d units of work of the region at %s: the order of the additions, hence the rounded result, changes from run to run" % (
+                            r.fn, name.split("#")[0], len(set(u for u, _ in ws)), r.site))
     # infinity norm: max |x_i| on constant vectors whose extreme entry sits first, last, in the middle, and is negative
     fns = [f for f in whole.fns("infinity_norm<double>") if len(f["params"]) == 1]
     if fns:
